@@ -4,7 +4,7 @@ import random
 
 import vlib
 
-MODEL_VO = ['Pdb/Records.vo', 'Pdb/AtomSite.vo', 'Pdb/Subchain.vo', 'Pdb/AtomLine.vo']
+MODEL_VO = ['Pdb/Records.vo', 'Pdb/AtomSite.vo', 'Pdb/Subchain.vo', 'Pdb/AtomLine.vo', 'Pdb/CcdAlias.vo']
 
 PDB_SRCS = ['polyheur.cpp', 'resinfo.cpp', 'sprintf.cpp', 'symmetry.cpp', 'gz.cpp']
 
